@@ -14,7 +14,7 @@ import (
 )
 
 func init() {
-	Registry["C12"] = Check{Level: "model_checking", Run: runC12, Replay: replayC12}
+	Registry["C12"] = Check{GC: 25, Level: "model_checking", Run: runC12, Replay: replayC12}
 }
 
 // ------------------------------------------------------------ Step part
